@@ -143,7 +143,9 @@ func C08(c *Ctx) {
 		c.Decide(len(direct) == 0, r5, key(fn, "no-direct-lsm-write"), fn.Pos(), 1, "rewrite re-inserts only through batchSet", "rewrite writes to the LSM/WAL directly, bypassing the write pipeline")
 	}
 	onlyCallers(c, r5, c.Fn("", "DB.sendToWriteCh"), map[string]string{
-		"(*NoKV.DB).batchSet":              "plain writes and GC re-inserts",
+		"(*NoKV.DB).batchSet":              "GC re-inserts",
+		"(*NoKV.DB).setEntry":              "plain writes",
+		"(*NoKV.DB).SetVersionedEntry":     "versioned writes (percolator)",
 		"(*NoKV.Txn).commitAndSend":        "transactions",
 		"(*NoKV.valueLog).flushDiscardStats": "reserved discard-stats key",
 	}, 3)
@@ -469,34 +471,43 @@ func gcLiveness(c *Ctx, rule string, proc *ssa.Function) {
 	// guards: DiscardEntry false edge dominates
 	okD, _ := guardedByCall(proc, g, Named("kv.DiscardEntry"), false)
 	c.Decide(okD, rule, key(proc, "reinsert<-!DiscardEntry"), g.Pos(), 2, "re-insert lies behind the false edge of kv.DiscardEntry", "re-insert is not guarded by kv.DiscardEntry")
-	// bucket equality and (fid, offset) comparison guards
-	var bucketOK, fidGT, eqOff bool
-	for _, b := range proc.Blocks {
-		ifi := ifOf(b)
-		if ifi == nil {
-			continue
-		}
-		bo, ok := ifi.Cond.(*ssa.BinOp)
-		if !ok {
-			continue
-		}
-		lo, lf, lok := FieldOf(Unwrap(bo.X))
-		if !lok || lo != "kv.ValuePtr" {
-			continue
-		}
+	// liveness decision by exhaustive order-sign evaluation: the guard touches the decoded live
+	// pointer (bucket, fid, offset) and the scanned position only through comparisons, so its
+	// behaviour is fixed by the three signs of live−scanned.  Helpers are evaluated too.
+	live := livePointerRoots(proc, 2)
+	classify := func(bo *ssa.BinOp) (string, bool, bool) {
+		xr, xf, xok := ptrFieldRoot(bo.X)
+		yr, yf, yok := ptrFieldRoot(bo.Y)
+		xl := xok && live[xr]
+		yl := yok && live[yr]
 		switch {
-		case lf == "Bucket" && bo.Op == token.NEQ && EdgeDominates(b, b.Succs[1], g.Block()):
-			bucketOK = true
-		case lf == "Fid" && bo.Op == token.GTR && !blockReachesAvoiding(b.Succs[0], g.Block(), nil):
-			fidGT = true
-		case lf == "Offset" && bo.Op == token.GTR:
-			if ro, rf, rok := FieldOf(Unwrap(bo.Y)); rok && ro == "kv.ValuePtr" && rf == "Offset" && !blockReachesAvoiding(b.Succs[0], g.Block(), nil) {
-				eqOff = true
+		case xl && !yl:
+			return xf, false, true
+		case yl && !xl:
+			return yf, true, true
+		}
+		return "", false, false
+	}
+	mustSkipBad, keepBad := "", ""
+	explored := 0
+	for _, sb := range []int{0, 1, -1} {
+		for _, sf := range []int{0, 1, -1} {
+			for _, so := range []int{0, 1, -1} {
+				env := &SignEnv{Classify: classify, Signs: map[string]int{"Bucket": sb, "Fid": sf, "Offset": so}, Depth: 2}
+				reach := env.Reaches(proc, g)
+				explored += env.Visited
+				superseded := sb != 0 || sf > 0 || (sf == 0 && so > 0)
+				if superseded && reach && mustSkipBad == "" {
+					mustSkipBad = fmt.Sprintf("live pointer vs scanned record: bucket %s, fid %s, offset %s", signStr(sb), signStr(sf), signStr(so))
+				}
+				if sb == 0 && sf == 0 && so == 0 && !reach {
+					keepBad = "live pointer == scanned position"
+				}
 			}
 		}
 	}
-	c.Decide(bucketOK, rule, key(proc, "reinsert<-same-bucket"), g.Pos(), 2, "records whose live pointer is in another bucket are skipped", "re-insert is not guarded by the bucket equality test")
-	c.Decide(fidGT && eqOff, rule, key(proc, "reinsert<-pointer-not-newer"), g.Pos(), 3, "records superseded by a newer pointer (greater fid, or same fid and greater offset) are skipped", "the liveness comparison (diskVP.Fid > fid || same fid && diskVP.Offset > scanned offset ⇒ skip) is missing or weakened")
+	c.Decide(mustSkipBad == "", rule, key(proc, "reinsert-unreachable-when-superseded"), g.Pos(), explored, "for all 27 orderings of (bucket, fid, offset): a record whose live pointer is in another bucket or at a newer (fid, offset) is never re-inserted", "a superseded record can be re-inserted ("+mustSkipBad+"): GC brings back an overwritten value / moves a key to the wrong bucket")
+	c.Decide(keepBad == "", rule, key(proc, "reinsert-reachable-when-live"), g.Pos(), explored, "the record the LSM points at is re-inserted", "the live record ("+keepBad+") is not re-inserted: GC drops a live value when it deletes the file")
 	// copies from the scanned entry (parameter 0)
 	if len(proc.Params) >= 1 {
 		e := proc.Params[0]
@@ -569,4 +580,101 @@ func valueFromParamField(v ssa.Value, p *ssa.Parameter, field string, depth int)
 		}
 	}
 	return false
+}
+
+func signStr(s int) string {
+	switch {
+	case s < 0:
+		return "older/less"
+	case s > 0:
+		return "newer/greater"
+	}
+	return "equal"
+}
+
+// ptrFieldRoot: v is (a conversion of) field f of a kv.ValuePtr; root is the struct's
+// alloc or parameter.
+func ptrFieldRoot(v ssa.Value) (root ssa.Value, field string, ok bool) {
+	v = Unwrap(v)
+	switch x := v.(type) {
+	case *ssa.UnOp:
+		if x.Op != token.MUL {
+			return nil, "", false
+		}
+		fa, ok := x.X.(*ssa.FieldAddr)
+		if !ok {
+			return nil, "", false
+		}
+		o, f, _ := FieldOf(fa)
+		if o != "kv.ValuePtr" {
+			return nil, "", false
+		}
+		return fa.X, f, true
+	case *ssa.Field:
+		o, f, _ := FieldOf(x)
+		if o != "kv.ValuePtr" {
+			return nil, "", false
+		}
+		r := x.X
+		if u, ok := r.(*ssa.UnOp); ok && u.Op == token.MUL {
+			r = u.X
+		}
+		return r, f, true
+	}
+	return nil, "", false
+}
+
+// livePointerRoots: the kv.ValuePtr allocs of fn that are filled by ValuePtr.Decode (the
+// pointer currently stored in the LSM), and — through static module calls — the callee
+// parameters (or their spill slots) that receive them.
+func livePointerRoots(fn *ssa.Function, depth int) map[ssa.Value]bool {
+	live := map[ssa.Value]bool{}
+	for _, ci := range Calls(fn, false, Named("kv.(*ValuePtr).Decode")) {
+		if al, ok := ci.Common().Args[0].(*ssa.Alloc); ok {
+			live[al] = true
+		}
+	}
+	var prop func(f *ssa.Function, d int)
+	prop = func(f *ssa.Function, d int) {
+		if d <= 0 {
+			return
+		}
+		AllInstrs(f, false, func(in ssa.Instruction) {
+			ci, ok := in.(ssa.CallInstruction)
+			if !ok {
+				return
+			}
+			sf := StaticFn(ci.Common())
+			if sf == nil || sf.Blocks == nil || !InModule(sf) {
+				return
+			}
+			args := ci.Common().Args
+			any := false
+			for i, a := range args {
+				r := a
+				if u, ok := r.(*ssa.UnOp); ok && u.Op == token.MUL {
+					r = u.X
+				}
+				if !live[r] || i >= len(sf.Params) {
+					continue
+				}
+				p := sf.Params[i]
+				live[p] = true
+				any = true
+				// by-value parameter spilled to an alloc
+				if p.Referrers() != nil {
+					for _, ref := range *p.Referrers() {
+						if st, ok := ref.(*ssa.Store); ok && st.Val == p {
+							live[st.Addr] = true
+						}
+					}
+				}
+			}
+			if any {
+				prop(sf, d-1)
+			}
+		})
+	}
+	prop(fn, depth)
+	return live
 }
